@@ -616,3 +616,50 @@ Proof.
   unfold print. destruct (print_uint_head (major v)) as (b & t & Eh & Hb). rewrite Eh. simpl.
   destruct (beqb b c_v) eqn:E; [|reflexivity]. apply beqb_eq in E; subst b. vm_compute in Hb. discriminate.
 Qed.
+
+(* ---------- the library's comparison is semver.org precedence, up to the uint64 limit ---------- *)
+Lemma parse_uint_small x : small_ident x = true -> parse_uint x = num_unb x.
+Proof.
+  unfold small_ident, parse_uint, num_unb. destruct x as [|b t]; [reflexivity|].
+  destruct (uint_of_bytes (b :: t)); [|reflexivity]. intros ->. reflexivity.
+Qed.
+
+Lemma cmp_part_is_spec x y : wf_ident x = true -> wf_ident y = true ->
+  small_ident x = true -> small_ident y = true -> cmp_part x y = spec_cmp_ident x y.
+Proof.
+  intros Wx Wy Sx Sy. rewrite cmp_part_spec by (apply wf_ident_nonempty; assumption).
+  unfold plt, spec_cmp_ident. pose proof (parse_uint_small x Sx) as Px. pose proof (parse_uint_small y Sy) as Py.
+  rewrite <- Px, <- Py.
+  destruct (seqb x y) eqn:E.
+  - apply seqb_eq in E. subst y. destruct (parse_uint x); [rewrite N.compare_refl; reflexivity | reflexivity].
+  - apply seqb_neq in E.
+    destruct (parse_uint x) as [a|] eqn:Ex, (parse_uint y) as [b|] eqn:Ey; try reflexivity.
+    + assert (a <> b) as Hne by (intros ->; apply E; eapply parse_uint_inj; eauto).
+      destruct (N.ltb_spec b a) as [L|L].
+      * symmetry. apply N.compare_gt_iff. exact L.
+      * symmetry. apply N.compare_lt_iff. lia.
+    + destruct (sltb y x) eqn:L.
+      * rewrite (sltb_asym _ _ L). reflexivity.
+      * destruct (sltb x y) eqn:L2; [reflexivity|]. exfalso. apply E. apply sltb_total; assumption.
+Qed.
+
+
+Lemma cmp_parts_is_spec a b : wfl a = true -> wfl b = true ->
+  forallb small_ident a = true -> forallb small_ident b = true -> cmp_parts a b = spec_cmp_idents a b.
+Proof.
+  revert b; induction a as [|x a IH]; intros b Wa Wb Sa Sb.
+  - simpl. rewrite cmp_rest_r_wf by assumption. destruct b; reflexivity.
+  - destruct b as [|y b].
+    + change (cmp_rest_l (x :: a) = Gt). rewrite cmp_rest_l_wf by assumption. reflexivity.
+    + simpl in Wa, Wb, Sa, Sb. apply andb_true_iff in Wa as [Wx Wa]. apply andb_true_iff in Wb as [Wy Wb].
+      apply andb_true_iff in Sa as [Sx Sa]. apply andb_true_iff in Sb as [Sy Sb].
+      simpl. rewrite (cmp_part_is_spec x y) by assumption. rewrite IH by assumption. reflexivity.
+Qed.
+
+Lemma compare_is_spec a b : wf a = true -> wf b = true -> small a = true -> small b = true ->
+  compare a b = spec_compare a b.
+Proof.
+  unfold wf, small, compare, spec_compare, cmp_pre, spec_cmp_pre. intros Wa Wb Sa Sb.
+  destruct (pre a) as [|p ps], (pre b) as [|q qs]; try reflexivity.
+  rewrite (cmp_parts_is_spec _ _ Wa Wb Sa Sb). reflexivity.
+Qed.
